@@ -238,13 +238,19 @@ class Program:
                 nfiles += 1
         # reference-relative normal form (sa/normalise.py): helpers that did not exist when the rules were
         # written are expanded at their call sites, new locals that only cache an attribute chain are removed
-        from . import normalise
+        from . import normalise, alpha
         trees = {rel: parse_module(src, rel) for mod, rel, src in pending}
+        # syntactic sugar first (applies to every tree): walrus, conditional expressions, all/any
+        normalise.desugar_walrus(trees)
+        normalise.desugar_conditional_expressions(trees)
+        normalise.desugar_quantifiers(trees)
         self.inlined_constants = normalise.inline_new_constants(trees)
         self.expanded_helpers = normalise.expand_new_helpers(trees)
-        self.propagated_aliases = normalise.propagate_new_aliases(trees)
-        normalise.desugar_quantifiers(trees)
         self.comprehension_rewrites = normalise.comprehension_form(trees)
+        # locals get their reference names back before "new relative to the reference" is decided by name
+        for rel, tree in trees.items():
+            alpha.normalise_module(tree, rel)
+        self.propagated_aliases = normalise.propagate_new_aliases(trees)
         normalise.inline_new_temporaries(trees)
         normalise.thread_new_flags(trees)
         for mod, rel, src in pending:
